@@ -16,3 +16,5 @@ func stateDump(w io.Writer, t *iavl.MutableTree) {}
 func immutableDump(w io.Writer, t *iavl.ImmutableTree) {}
 
 func storageVersionLabel(t *iavl.MutableTree) string { return "" }
+
+func scramblePools() {}
